@@ -20,6 +20,7 @@ def run(ctx):
     host.h4(ctx)
     host.h5(ctx)
     host.h6(ctx)
+    host.h7(ctx)
     host.t9(ctx)
     host.ord3_ord5c(ctx)
     host.ord5(ctx)
